@@ -368,6 +368,16 @@ def rel_c10(c):
     return out, 1
 
 
+def has_dup_keys(doc):
+    for n in doc['h']:
+        if n['k'] == 'm':
+            ks = [doc['h'][k - 1]['v'] for k in n['c'][0::2]
+                  if doc['h'][k - 1]['k'] == 's']
+            if len(ks) != len(set(ks)):
+                return True
+    return False
+
+
 def rel_c13(c):
     out = []
     fid = 'F7' if c['dev']['alias'] else None
@@ -383,10 +393,11 @@ def rel_c13(c):
         if render.expand(c['doc']) is None:
             return out, 0
         base = None
+        dup = has_dup_keys(c['doc'])
         for style, rev in (('flow', False), ('flow', True), ('block', False),
                            ('block', True)):
             doc = reverse_maps(c['doc']) if rev else c['doc']
-            if rev and not anchors_precede_aliases(doc):
+            if rev and dup:
                 continue
             o = loadreplay.observe(c, style=style, doc=doc)
             n += 1
@@ -408,7 +419,10 @@ def rel_c13(c):
                 ('flow', 0, True, False), ('flow', 0, False, True),
                 ('block', 1, True, True)]
     base = None
+    dup = has_dup_keys(c['doc'])
     for style, flavor, extra, rev in variants:
+        if rev and dup:
+            continue        # a repeated key makes the order meaningful
         doc = reverse_maps(c['doc']) if rev else c['doc']
         o = loadreplay.observe(c, style=style, flavor=flavor, extra=extra,
                                doc=doc)
